@@ -365,3 +365,31 @@ Proof.
     + unfold u2 in C. cbn in C. rewrite C in Hc. cbn in Hc. discriminate.
     + rewrite (waits_rolling_bg_ext sp (observed_sub w u) u2 w br) by (unfold u2; cbn; auto). exact W.
 Qed.
+
+(* ---------- C10: a blue-green release refuses supersession ---------- *)
+Theorem bg_refuses_supersession sp st w br m u x y :
+  reconcile_bg sp st w br = ROut m ->
+  rp_phase st = RpProgressing -> rs_deleting sp = false ->
+  rp_prog st = Some (PrInRolling, x, y) -> rp_sub st = Some u ->
+  wl_exists w = true -> wl_consistent w = true -> rs_paused sp = false ->
+  sempty (su_canary_rev u) = false -> wl_canary w <> su_canary_rev u -> wl_in_rollback w = false ->
+  o_br m = br /\ exists s', o_status m = Some s' /\ rp_sub s' = Some u /\ rp_prog s' = rp_prog st.
+Proof.
+  intros H Hph Hdel Hprog Hu Hex Hco Hpa Hne Hrev Hrb.
+  unfold reconcile_bg in H. destruct (calc_status sp st w) as [|s] eqn:Hcalc.
+  { exfalso. apply (calc_not_retry sp st w Hco). exact Hcalc. }
+  rewrite Hph in H.
+  destruct (calc_status_sub _ _ _ _ _ Hcalc Hu Hdel Hph) as [Hnone|[Hsome Hsp]].
+  { exfalso. unfold calc_status in Hcalc. rewrite Hdel, Hph, Hex, Hco in Hcalc. cbn [rphase_eqb negb andb rp_phase] in Hcalc.
+    rewrite !andb_true_r in Hcalc. injection Hcalc as <-.
+    destruct (rs_disabled sp); cbn in Hnone; rewrite Hu in Hnone;
+    destruct (negb (sempty (su_canary_rev u)) && (su_canary_rev u =? wl_canary w)%string); cbn in Hnone; congruence. }
+  assert (Hobs : observed_sub w u = u).
+  { unfold observed_sub. replace (String.eqb (su_canary_rev u) (wl_canary w)) with false; [rewrite !andb_false_r; reflexivity|].
+    symmetry. apply String.eqb_neq. congruence. }
+  rewrite Hobs in Hsome.
+  unfold progressing_bg in H. rewrite Hprog, Hex, Hco in H. cbn [negb orb] in H.
+  unfold in_rolling_bg in H. rewrite Hu, Hsome, Hrb, Hpa, Hne in H. cbn [andb orb negb] in H.
+  replace (negb (String.eqb (wl_canary w) (su_canary_rev u))) with true in H by (symmetry; apply negb_true_iff, String.eqb_neq; exact Hrev).
+  cbn in H. injection H as <-. cbn. split; [reflexivity|]. exists s. auto.
+Qed.
